@@ -76,33 +76,78 @@ class Acc:
 
 
 def _call(args):
-    fn_mod, fn_name, shard, nshards, tier, seed, extra = args
+    fn_mod, fn_name, shard, nshards, tier, seed, extra = args[:7]
+    warm = bool(args[7]) if len(args) > 7 else False
     try:
+        from . import terms
+        terms.set_warm(warm)
         fn = getattr(importlib.import_module(fn_mod), fn_name)
-        return fn(shard, nshards, tier, seed, *extra)
+        acc = fn(shard, nshards, tier, seed, *extra)
     except Exception:  # noqa: BLE001
-        a = Acc()
-        a.notes.append("WORKER-CRASH " + traceback.format_exc())
-        return a
+        acc = Acc()
+        acc.notes.append("WORKER-CRASH " + traceback.format_exc())
+    finally:
+        try:
+            terms.set_warm(False)
+        except Exception:  # noqa: BLE001
+            pass
+    ctx = {"fn_mod": fn_mod, "fn_name": fn_name, "shard": shard, "nshards": nshards, "tier": tier,
+           "seed": seed, "extra": list(extra), "warm": warm}
+    for v in acc.viol.values():
+        v["ctx"] = ctx
+        if warm:
+            for c in [v["case"]] + [c for _, c in v.get("alts", [])]:
+                if isinstance(c, dict):
+                    c["warm"] = True
+    if warm:
+        # the warm pass repeats the same cases: its counters are reported separately so that
+        # states / transitions in the evidence count each case once
+        acc.n = collections.Counter({"warm:" + k: c for k, c in acc.n.items()})
+        acc.n["warm:shards"] += 1
+    return acc
 
 
-def parallel(fn, tier, seed, nshards=None, extra=()):
-    """Runs fn(shard, nshards, tier, seed, *extra) -> Acc for every shard; merges the results."""
+def parallel(fn, tier, seed, nshards=None, extra=(), warm_pass=False):
+    """Runs fn(shard, nshards, tier, seed, *extra) -> Acc for every shard; merges the results.
+    With warm_pass every shard is run a second time with the warm builder switched on (every
+    intermediate schema object is exercised - repr, ==, validate, fake - before it is refined,
+    combined or substituted into; see terms.set_warm)."""
     nshards = nshards or NPROC * 4
     order = list(range(nshards))
     rot = seed % nshards
     order = order[rot:] + order[:rot]          # the seed only rotates hand-out order
-    args = [(fn.__module__, fn.__name__, s, nshards, tier, seed, tuple(extra)) for s in order]
+    args = [(fn.__module__, fn.__name__, s, nshards, tier, seed, tuple(extra), False) for s in order]
+    if warm_pass:
+        args += [a[:7] + (True,) for a in args]
     total = Acc()
     if NPROC <= 1:
         for a in args:
             total.merge(_call(a))
         return total
     ctx = multiprocessing.get_context("fork")
-    with ctx.Pool(NPROC) as pool:
+    # one task per forked child: the history a case can depend on is exactly "the earlier cases
+    # of its shard", which context_replay can re-create in a fresh interpreter
+    with ctx.Pool(NPROC, maxtasksperchild=1) as pool:
         for acc in pool.imap_unordered(_call, args):
             total.merge(acc)
     return total
+
+
+def context_replay(ctx, sig, timeout=1800):
+    """Re-runs one shard of a check in a brand-new interpreter and reports whether the violation
+    signature shows up again.  This is the replay of last resort for violations that depend on
+    what the same process executed earlier (hidden state): the history is 'the cases of shard s,
+    in order', which is deterministic."""
+    import subprocess
+    code = ("import sys, json; from mc import runner; ctx = json.loads(sys.stdin.read()); "
+            "a = runner._call((ctx['fn_mod'], ctx['fn_name'], ctx['shard'], ctx['nshards'], ctx['tier'], "
+            "ctx['seed'], tuple(ctx['extra']), ctx['warm'])); "
+            "print('@@RESULT@@' + json.dumps(sorted(a.viol)))")
+    p = subprocess.run([sys.executable, "-W", "ignore", "-c", code], input=json.dumps(ctx),
+                       capture_output=True, text=True, cwd=env.VERIF, timeout=timeout)
+    if p.returncode != 0 or "@@RESULT@@" not in p.stdout:
+        return "context replay failed: " + (p.stderr or p.stdout)[-400:]
+    return sig if sig in json.loads(p.stdout.split("@@RESULT@@")[-1]) else []
 
 
 def replay_in_fresh_interpreter(module_name, case, timeout=900):
@@ -157,6 +202,19 @@ def _reproduced(res, sig):
     return isinstance(res, (list, tuple, set)) and sig in res
 
 
+def _replay_case(module, cand):
+    from . import terms
+    if isinstance(cand, dict) and cand.get("mode") == "shard-context":
+        return context_replay(cand["ctx"], cand.get("sig") or "")
+    try:
+        terms.set_warm(bool(isinstance(cand, dict) and cand.get("warm")))
+        return module.replay(cand)
+    except Exception:  # noqa: BLE001
+        return "replay crashed: " + traceback.format_exc(limit=3)
+    finally:
+        terms.set_warm(False)
+
+
 def finish(prop, tier, seed, t0, acc, coverage, assumptions, module=None):
     """Writes evidence, prints VIOLATION / KNOWN-FINDING lines, returns the exit code."""
     known = load_known()
@@ -179,14 +237,20 @@ def finish(prop, tier, seed, t0, acc, coverage, assumptions, module=None):
             again = None
             ok = False
             for _, cand in (v.get("alts") or [(0, v["case"])]):
-                try:
-                    again = module.replay(cand)
-                except Exception:  # noqa: BLE001
-                    again = ("replay crashed: " + traceback.format_exc(limit=3))
+                again = _replay_case(module, cand)
                 if _reproduced(again, v["sig"]):
                     v["case"] = cand
                     ok = True
                     break
+            if not ok and v.get("ctx"):
+                # depends on what the worker executed before it: replay the worker's history
+                again = context_replay(v["ctx"], v["sig"])
+                if _reproduced(again, v["sig"]):
+                    v["case"] = {"mode": "shard-context", "ctx": v["ctx"], "last_case": v["case"],
+                                 "note": "reproduces only after the earlier cases of this shard "
+                                         "(hidden state); replay re-runs the shard in a fresh "
+                                         "interpreter"}
+                    ok = True
             if not ok:
                 print(f"HARNESS-ERROR property={prop} violation did not reproduce on replay: "
                       f"{v['sig']} -> {again}")
@@ -206,7 +270,14 @@ def finish(prop, tier, seed, t0, acc, coverage, assumptions, module=None):
     cov.setdefault("samples", acc.samples[:6] or ["<none>"])
     cov["caps_hit"] = dict(acc.caps)
     cov["distinct_outcomes"] = len(acc.outcomes)
-    cov["counters"] = dict(acc.n)
+    cov["counters"] = {k: c for k, c in acc.n.items() if not k.startswith("warm:")}
+    wc = {k[5:]: c for k, c in acc.n.items() if k.startswith("warm:")}
+    if wc:
+        cov["warm_pass"] = {"what": "every case repeated on schema objects whose every intermediate "
+                                    "was first exercised through repr, ==, validate and fake "
+                                    "(state cached by those operations is carried into what is "
+                                    "derived next); counted separately from states/transitions",
+                            "counters": wc}
     cov["known_findings_seen"] = {kid: cnt for kid, (_, cnt) in old.items()}
     cov["new_violation_signatures"] = [v["sig"] for v in new][:50]
     evidence = {
@@ -254,7 +325,10 @@ def main(argv=None):
     if replay:
         with open(replay) as f:
             data = json.load(f)
-        res = module.replay(data["case"])
+        case = data["case"]
+        if isinstance(case, dict) and case.get("mode") == "shard-context":
+            case = dict(case, sig=data.get("signature"))
+        res = _replay_case(module, case)
         if _reproduced(res, data.get("signature")):
             print(f"VIOLATION property={prop} replay={replay}")
             print(f"  reproduced: {data.get('signature')}")
